@@ -329,7 +329,11 @@ class ListNode(SequenceNode[Tuple[T, ...]], Generic[T]):
         self.allow_list_edits_when_same_length: bool = allow_list_edits_when_same_length
 
     def copy_from(self: C, children: Iterable[TreeNode]) -> C:
-        return self.__class__(children)
+        return self.__class__(
+            children,
+            allow_list_edits=self.allow_list_edits,
+            allow_list_edits_when_same_length=self.allow_list_edits_when_same_length
+        )
 
     def to_obj(self):
         return [n.to_obj() for n in self]
